@@ -129,7 +129,9 @@ func renderPrimaryOrFilter(e Expr) string {
 
 // Convenience constructors ---------------------------------------------------------
 
-func NameTest(prefix, local string) NodeTest { return NodeTest{Kind: TName, Prefix: prefix, Local: local} }
+func NameTest(prefix, local string) NodeTest {
+	return NodeTest{Kind: TName, Prefix: prefix, Local: local}
+}
 
 func S(axis string, t NodeTest, preds ...Expr) Step { return Step{Axis: axis, Test: t, Preds: preds} }
 
